@@ -6,7 +6,10 @@ parametrised generics (also spelled typing.List[...]), nested parametrisations, 
 Model: type[T] is applicable iff the passed type is a subtype of T (class: subclass; generic: same-or-subclass
 origin and, for a parametrised T, equal-length argument-wise subtype); bare type == type[object]; Any counts as
 object; a strictly more specific type[...] beats a more general one and `object`; ordinary positions dispatch
-on the class.  Metamorphic: removing every type[...] method never changes the outcome for ordinary arguments.
+on the class.  Metamorphic: removing every type[...] method never changes the outcome for ordinary arguments; and
+the same arguments forwarded from inside a router method on an unrelated class (recurse / call_next, statically
+shaped and starred, in functions and in methods with self) resolve exactly like the direct call.  Passed generics
+may carry typing.Any at nested argument slots (counts as object).
 """
 import sys
 import typing
@@ -17,7 +20,8 @@ from vlib import runner as R
 from vlib import spec as S
 from vlib.prog import Program
 
-HIER = {"classes": [{"bases": []}, {"bases": [0]}, {"bases": [1]}, {"bases": []}]}
+# K4 is the "router" class: never passed as a type, never in a type[...] annotation
+HIER = {"classes": [{"bases": []}, {"bases": [0]}, {"bases": [1]}, {"bases": []}, {"bases": []}]}
 KN = ["K0", "K1", "K2", "K3"]
 ORIGINS1 = ["list", "Sequence", "Iterable", "set", "tuple"]
 TYPING_SPELL = {"list": typing.List, "dict": typing.Dict, "Sequence": typing.Sequence, "Iterable": typing.Iterable,
@@ -37,6 +41,31 @@ def inner_strategy(depth=2):
     gen2 = st.tuples(sub, sub).map(lambda t: ["gen", "dict", [t[0], t[1]]])
     gent = st.lists(sub, min_size=2, max_size=3).map(lambda t: ["gen", "tuple", t])
     return st.one_of(cls, cls, gen1, gen1, gen2, gent)
+
+
+def any_inside():
+    """a parametrised generic with typing.Any at one or more (possibly nested) argument slots"""
+    from hypothesis import strategies as st
+
+    @st.composite
+    def _g(draw):
+        g = draw(inner_strategy().filter(lambda i: i[0] == "gen"))
+        hit = [False]
+
+        def walk(x, force):
+            if x[0] == "gen":
+                args = list(x[2])
+                k = draw(st.integers(0, len(args) - 1)) if force else -1
+                return ["gen", x[1], [walk(a, j == k) for j, a in enumerate(args)]]
+            if force or draw(st.integers(0, 3)) == 0:
+                hit[0] = True
+                return ["anyT"]
+            return x
+
+        g = walk(g, True)
+        return ["genobj", g[1], g[2], False]
+
+    return _g()
 
 
 def case_strategy():
@@ -73,6 +102,7 @@ def case_strategy():
                                                                             False]),
             inner_strategy(1).filter(lambda i: i[0] == "gen").map(lambda i: ["genobj", i[1], i[2], True]),
             st.just(["any"]),
+            any_inside(),
             st.sampled_from([["inst", "K0"], ["inst", "K1"], ["inst", "K2"], ["int", 1], ["str", "s"]]),
         )
         # aim some calls at an annotation: pass exactly its inner type or a "smaller" one
@@ -91,7 +121,12 @@ def case_strategy():
             if two:
                 args.append(draw(st.sampled_from([["inst", "K0"], ["inst", "K1"], ["int", 1], ["str", "s"]])))
             calls.append(args)
-        return {"methods": methods, "calls": calls, "kwmode": kwmode, "swap": swap}
+        # the same calls are also delivered from inside a method: a router method on an unrelated class forwards the
+        # arguments through recurse / call_next sites, statically shaped and starred (run-time lookup), in plain
+        # functions and in methods with self
+        host = draw(st.sampled_from(["func", "func", "attr", "mc"]))
+        router = (not kwmode) and draw(st.integers(0, 2)) > 0
+        return {"methods": methods, "calls": calls, "kwmode": kwmode, "swap": swap, "host": host, "router": router}
 
     return _case()
 
@@ -104,12 +139,33 @@ def to_passed(inner):
     return ["genobj", inner[1], inner[2], False]
 
 
+def build_inner(x, env):
+    import collections.abc
+
+    if x[0] == "anyT":
+        return typing.Any
+    if x[0] == "gen":
+        o = env[x[1]] if x[1] in env else getattr(collections.abc, x[1])
+        a = tuple(build_inner(y, env) for y in x[2])
+        return o[a if len(a) != 1 else a[0]]
+    return S.build_ann(x, env)
+
+
+def no_any(x):
+    """typing.Any counts as object"""
+    if x[0] == "anyT":
+        return ["obj"]
+    if x[0] == "gen":
+        return ["gen", x[1], [no_any(y) for y in x[2]]]
+    return x
+
+
 def build_passed(v, env):
     if v[0] == "genobj":
-        args = tuple(S.build_ann(x, env) for x in v[2])
+        args = tuple(build_inner(x, env) for x in v[2])
         if len(v) > 3 and v[3] and v[1] in TYPING_SPELL:
             return TYPING_SPELL[v[1]][args if len(args) != 1 else args[0]]
-        return S.build_gen(v[1], v[2], env)
+        return build_inner(["gen", v[1], v[2]], env)
     return S.build_value(v, env)
 
 
@@ -121,7 +177,7 @@ def as_inner(v):
     if v[0] == "clsobj":
         return ["obj"] if v[1] == "object" else ["cls", v[1]]
     if v[0] == "genobj":
-        return ["gen", v[1], v[2]]
+        return no_any(["gen", v[1], v[2]])
     if v[0] == "any":
         return ["obj"]
     return None
@@ -253,12 +309,25 @@ def run_case(spec):
     res = R.CaseResult()
     env = H.build(HIER)
     methods = spec["methods"]
+    kwmode = spec.get("kwmode")
+    router = None
+    all_methods = methods
+    if spec.get("router") and not kwmode:
+        npos = len(methods[0]["pos"])
+        rid = max(m["id"] for m in methods) + 1
+        if spec.get("swap"):
+            rpos = [{"name": f"x{rid}", "ann": ["cls", "K4"]}, {"name": "t", "ann": ["obj"]}]
+        else:
+            rpos = [{"name": "a0", "ann": ["cls", "K4"]}] + ([{"name": "a1", "ann": ["obj"]}] if npos == 2 else [])
+        router = {"id": rid, "pos": rpos, "kw": [], "prio": 10,
+                  "sites": [{"fn": "recurse", "npos": npos, "kws": []}, {"fn": "recurse", "npos": npos, "kws": [], "star": True},
+                            {"fn": "call_next", "npos": npos, "kws": []}, {"fn": "call_next", "npos": npos, "kws": [], "star": True}]}
+        all_methods = methods + [router]
     try:
-        prog = Program({"hier": HIER, "methods": methods, "host": "func"}, env=env)
+        prog = Program({"hier": HIER, "methods": all_methods, "host": spec.get("host", "func")}, env=env)
     except Exception as e:  # noqa: BLE001
         res.fail(f"program construction failed: {type(e).__name__}: {e}", None)
         return res
-    kwmode = spec.get("kwmode")
     plain_methods = [m for m in methods if all(p["ann"][0] != "type" for p in m["pos"] + m["kw"])]
     prog2 = Program({"hier": HIER, "methods": plain_methods, "host": "func"}, env=env) if plain_methods else None
     try:
@@ -288,6 +357,21 @@ def run_case(spec):
             elif got != exp:
                 res.fail(f"call {call}: expected {exp}, got {got} ({out.detail[:160]}); annotations "
                          f"{[[p['ann'] for p in typed_params(m)] for m in methods]} kw-only={bool(kwmode)}", None)
+            if router is not None and out.kind in ("ok", "rejected", "nomethod", "ambiguous"):
+                # delivered from inside the router method: same resolution as the direct call
+                norm = lambda k: "nomethod" if k == "rejected" else k  # noqa: E731
+                rargs = [S.build_value(["inst", "K4"], env)] + [0] * (len(args) - 1)
+                for k, site in enumerate(router["sites"]):
+                    o3 = prog.call(rargs, {}, script=[["site", k, "raw", {}]], raw_site_args=args)
+                    g3 = (norm(o3.kind), o3.value.mid if o3.kind == "ok" else None)
+                    g1 = (norm(out.kind), out.value.mid if out.kind == "ok" else None)
+                    res.label("via:" + site["fn"] + ("*" if site.get("star") else ""))
+                    if g3 != g1:
+                        res.fail(f"call {call} forwarded by {site['fn']}({'*args' if site.get('star') else 'args'}) from a "
+                                 f"{'method with self' if prog.is_method else 'function'} on an unrelated class: {g3} "
+                                 f"({o3.detail[:120]}), direct call: {g1}; annotations "
+                                 f"{[[p['ann'] for p in typed_params(m)] for m in methods]}", None)
+                        break
             if as_inner(call[0]) is None and prog2 is not None:
                 o2 = prog2.call(args, kws)
                 g2 = ("method", o2.value.mid) if o2.kind == "ok" else ("nomethod",) if o2.kind == "rejected" else (o2.kind,)
@@ -309,7 +393,9 @@ class Check:
         "Hypothesis: 1-6 methods whose first parameter is type[class] / type[generic (nested)] / bare type / object / an "
         "ordinary class, optionally a second ordinary parameter; 2-8 calls passing classes, parametrised generics "
         "(builtin and typing spellings, nested), typing.Any and ordinary instances. Outcome compared with a subtype-"
-        "based reference model; ordinary calls additionally compared with the same set minus every type[...] method. "
+        "based reference model; ordinary calls additionally compared with the same set minus every type[...] method; 2 cases "
+        "in 3 also forward every call through 4 recurse / call_next sites (static, starred) of a router method, hosts "
+        "func / attr / OvldBase, and compare with the direct call; passed generics include typing.Any at nested slots. "
         "Non-trivial = >=2 type[...] methods related by subtyping and a parametrised generic passed; distinct by case hash."
     )
     assumptions = [
